@@ -91,6 +91,16 @@ def check(repo: Repo, R) -> None:
             R.check(False, rule, key_of(fi_, "input-written"), fi_.at(node_), f"{fi_.name} writes into the Sim it exports: {what_}",
                     why="a generated name (or any other export-time value) outlives the export: exporting the same analysis again, in another position or another Sim, yields two analyses under one name — the export depends on what was exported before")
     R.check(nfun >= 10, rule, f"{F_SIMPROTO}::read-only", F_SIMPROTO, f"{nfun} functions of {F_SIMPROTO} write nothing into the Sim, its attributes or their members", why="the export changes its input")
+    # include / library paths are handed on as the user wrote them
+    for fname, arg in (("export_include", "inc"), ("export_lib", "lib")):
+        fp_ = repo.find_func(F_SIMPROTO, fname) or repo.find_func(F_SIMPROTO, f"SimProtoExporter.{fname}")
+        if fp_ is None:
+            raise AnalysisError(f"anchor-vanished: {fname} in {F_SIMPROTO}")
+        a0 = fp_.node.args.args[-1].arg
+        vals = [shared.prov_text(fp_.node, k.value) for c_ in au.calls_in(fp_.node) if (dotted(c_.func) or "").startswith("vsp.") for k in c_.keywords if k.arg == "path"]
+        okp = bool(vals) and all(v_ == f"str({a0}.path)" for v_ in vals)
+        R.check(okp, "C17.1-dispatch-complete", key_of(fp_, "path-as-given"), fp_.site, f"{fname}: the exported path is the text of the given path: {vals}",
+                why="a relative include path is resolved against the exporting process's working directory: the SimInput no longer carries the path the Sim has")
     fadd = repo.func(F_SIMDATA, "Sim.add")
     lp = [n for n in au.walk_no_nested(fadd.node) if isinstance(n, ast.For) and ast.unparse(n.iter) == "attrs"]
     ok = False
